@@ -263,6 +263,10 @@ func (pm *ProtocolManager) handleMsg(p *peer) error {
 		if last.Height < request.Number {
 			return p.SendBlockHashes(nil)
 		}
+		// The amount may have been recomputed from the frontier above; apply the reply limit again
+		if request.Amount > uint64(downloader.MaxHashFetch) {
+			request.Amount = uint64(downloader.MaxHashFetch)
+		}
 		// Retrieve the hashes from the last block backwards, reverse and return
 		hashes, err := pm.chainman.GetBlockHashesFromHash(last.Hash, request.Amount)
 		if err != nil {
